@@ -615,6 +615,63 @@ func TestC13(t *testing.T) {
 			run(kindSets[ki], seq, []string{kn[ki], "len4-sampled"})
 		}
 	}
+	// "then new calls": an envelope sequence (surplus replies, late envelopes, resets ...), THEN calls started afterwards on
+	// the same connection, each answered by its own reply (distinct tokens): lock-step, judged by the model and by the
+	// honesty / route predicates (a stale envelope must never surface in a later call)
+	nn := 120
+	if thorough() {
+		nn = 1500
+	}
+	for i := 0; i < nn; i++ {
+		if idx%nsh != shard {
+			idx++
+			continue
+		}
+		rr := rand.New(rand.NewSource(int64(idx)*104729 + *flagSeed))
+		ki := []int{0, 2}[rr.Intn(2)] // unary+stream or unary+unary: the all-orders exploration of the checker grows with
+		// the product of the concurrently active streams
+		kinds := kindSets[ki]
+		var acts []CAct
+		laterStream := false
+		for c, st := range kinds {
+			if st {
+				acts = append(acts, CAct{Op: "stream"}, CAct{Op: "recv", C: c})
+			} else {
+				acts = append(acts, CAct{Op: "unary", B: int64(20 + c)})
+			}
+		}
+		for j, n := 0, 1+rr.Intn(3); j < n; j++ {
+			tg := rr.Intn(3)
+			call := tg
+			if tg == 2 {
+				call = -1
+			}
+			acts = append(acts, CAct{Op: "deliver", Env: envShapes(call, rr)[rr.Intn(nShapes)]})
+		}
+		next := 2
+		for j, n := 0, 1+rr.Intn(2); j < n; j++ {
+			tok := int64(3000 + 10*j + rr.Intn(5))
+			if rr.Intn(2) == 0 || laterStream {
+				acts = append(acts, CAct{Op: "unary", B: int64(30 + j)})
+				if rr.Intn(4) != 0 {
+					acts = append(acts, CAct{Op: "deliver", Env: &EnvSpec{Call: next, Hdr: "ok:0", Body: i64(tok), Trl: "ok:0"}})
+				}
+			} else {
+				laterStream = true
+				acts = append(acts, CAct{Op: "stream"}, CAct{Op: "recv", C: next})
+				if rr.Intn(4) != 0 {
+					acts = append(acts, CAct{Op: "deliver", Env: &EnvSpec{Call: next, Hdr: "ok:0", Body: i64(tok), Trl: "none"}}, CAct{Op: "recv", C: next})
+				}
+			}
+			next++
+		}
+		acts = append(acts, CAct{Op: "failread"})
+		sc := clientScenario{Acts: acts, WithStats: idx%2 == 0, Tags: []string{kn[ki], "then-new-calls"}}
+		if want(idx) {
+			runClientScenarioAs(t, idx, "c13", sc, em, "C13Step", nil)
+		}
+		idx++
+	}
 	nr := 500
 	if thorough() {
 		nr = 6000
